@@ -49,8 +49,9 @@ def patched(script: Script):
 
 
 @contextlib.contextmanager
-def patched_keyed(decide):
-    """decide(routine, A, estimate) -> "ok" | "fail" | "nan": the harness identifies the factor the call is for."""
+def patched_keyed(decide, natural=None):
+    """decide(routine, A, estimate) -> "ok" | "fail" | "nan": the harness identifies the factor the call is for;
+    natural(result) is told what the real routine returned for an "ok" call."""
     import distributed_shampoo.utils.shampoo_preconditioner_list as pl
     real_root, real_eig = pl.matrix_inverse_root, pl.matrix_eigenvectors
 
@@ -63,7 +64,10 @@ def patched_keyed(decide):
                 raise InjectedFailure("injected failure")
             if out == "nan":
                 return torch.full_like(A, float("nan"))
-            return real(*a, **kw)
+            res = real(*a, **kw)
+            if natural is not None:
+                natural(res)
+            return res
         return f
     pl.matrix_inverse_root = wrap(real_root, "root")
     pl.matrix_eigenvectors = wrap(real_eig, "eig")
